@@ -316,7 +316,7 @@ def check(tier):
     sub = []
     for mod in (c10, c11, c09, c03, c04, c14):
         mod.declare(rep)
-        sub += mod.run(rep, "quick")
+        sub += mod.run(rep, tier if (tier == "thorough" and mod is not c11) else "quick")
     # the same contracts over probes that mimic other backends' compile-time traits (configuration type, constructors):
     # a layer that special-cases the type of its backend shows the special case here
     for mimic in (1, 2):
